@@ -206,7 +206,7 @@ fn gen_faults(rng: &mut Rng, mode: u8, writing: bool) -> Vec<FaultSpec> {
 impl C19 {
     fn gen_case(&self, rng: &mut Rng, tier: Tier, _run: u64) -> Case {
         let coarse = rng.chance(0.3);
-        let max_nodes = if tier == Tier::Thorough && rng.chance(0.05) { 20 } else { 12 };
+        let max_nodes = if rng.chance(if tier == Tier::Thorough { 0.05 } else { 0.03 }) { 40 } else { 12 };
         let x1 = gen_grid(rng, 2, max_nodes, coarse);
         let nvars1 = rng.urange(1, 4);
         let x2 = gen_grid(rng, 2, max_nodes.min(12), coarse);
@@ -217,7 +217,7 @@ impl C19 {
             8..=14 => 1,
             _ => 2,
         };
-        let n_ops = rng.urange(5, 40);
+        let n_ops = if rng.chance(0.03) { rng.urange(41, 120) } else { rng.urange(5, 40) };
         // swarm: per-run weights for the operation families
         let w_io = rng.urange(1, 6);
         let w_1d = rng.urange(1, 6);
